@@ -2592,12 +2592,14 @@ let rec insert_uniq x l = match l with
 let sort_uniq l =
   fold_right insert_uniq [] l
 
+type uentry = text list * text option
+
 type pstate =
 | PScan of text list * bool
 | PAlias of text list
-| PDone of text list
+| PDone of uentry list
 
-(** val leaf : text list -> text list -> text option -> text list **)
+(** val leaf : text list -> text list -> text option -> uentry list **)
 
 let leaf prefix segs alias =
   let path = app prefix (rev segs) in
@@ -2617,15 +2619,19 @@ let leaf prefix segs alias =
        | Some a -> if eqb_text a l then None else alias
        | None -> None
      in
-     (app (join s_coloncolon path0)
-       (match alias0 with
-        | Some t0 ->
-          (match t0 with
-           | [] -> []
-           | c :: a -> app s_sp_as_sp (c :: a))
-        | None -> [])) :: [])
+     (path0, alias0) :: [])
 
-(** val pfinish : text list -> pstate -> text list **)
+(** val render_leaf : uentry -> text **)
+
+let render_leaf e =
+  app (join s_coloncolon (fst e))
+    (match snd e with
+     | Some t0 -> (match t0 with
+                   | [] -> []
+                   | c :: a -> app s_sp_as_sp (c :: a))
+     | None -> [])
+
+(** val pfinish : text list -> pstate -> uentry list **)
 
 let pfinish prefix = function
 | PScan (segs, first) -> if first then [] else leaf prefix segs None
@@ -2633,8 +2639,8 @@ let pfinish prefix = function
 | PDone ls -> ls
 
 (** val parse_loop :
-    (text list -> item -> text list) -> bool -> text list -> pstate -> item
-    list -> text list **)
+    (text list -> item -> uentry list) -> bool -> text list -> pstate -> item
+    list -> uentry list **)
 
 let rec parse_loop rec0 drop_root prefix st = function
 | [] -> pfinish prefix st
@@ -2670,17 +2676,22 @@ let rec parse_loop rec0 drop_root prefix st = function
                | Grp (_, _) -> None))) ts'
         | PDone _ -> parse_loop rec0 drop_root prefix st ts')
 
-(** val parse_grp : bool -> text list -> item -> text list **)
+(** val parse_grp : bool -> text list -> item -> uentry list **)
 
 let rec parse_grp drop_root prefix = function
 | Tok _ -> []
 | Grp (_, sub) ->
   parse_loop (parse_grp drop_root) drop_root prefix (PScan ([], true)) sub
 
+(** val parse_entries : bool -> item list -> uentry list **)
+
+let parse_entries drop_root items =
+  parse_loop (parse_grp drop_root) drop_root [] (PScan ([], true)) items
+
 (** val parse_use : bool -> item list -> text list **)
 
 let parse_use drop_root items =
-  parse_loop (parse_grp drop_root) drop_root [] (PScan ([], true)) items
+  map render_leaf (parse_entries drop_root items)
 
 (** val is_inner_doc : item -> bool **)
 
